@@ -7,8 +7,11 @@
      "w"/"wb" truncate or create; "a"/"ab" create if missing, start with `ftell` = size, and EVERY write goes to
      the end of the file whatever the position is (O_APPEND), leaving the position at the new end;
    * POSIX: text and binary streams are the same;
-   * "r" streams cannot be written, "w"/"a" streams cannot be read: the call fails, sets the error indicator and
-     transfers nothing (`fgetc` returns EOF *without* setting the end-of-file indicator);
+   * "r" streams cannot be written, "w"/"a" streams cannot be read: the call fails (POSIX: EBADF), sets the error
+     indicator and transfers nothing (`fgetc` returns EOF *without* setting the end-of-file indicator — which is why
+     the counting loop of `File::read()` never ends on such a stream).  This direction of misuse is OUTSIDE C17 and is
+     not tied to the real libc: glibc 2.36 additionally throws away pending output when an `fread` larger than its
+     buffer is issued on a write-only stream (observed through `File::read(buffer, 1, 4139)` after a 3-byte write);
    * `fread/fwrite(size, count)` transfer up to size*count bytes, return the number of complete items, are no-ops
      when size*count = 0; a short `fread` sets the end-of-file indicator; the position advances by the bytes moved;
    * writing beyond the end fills the gap with zero bytes; `fseek` to a negative position fails with -1 and
